@@ -617,7 +617,7 @@ pub fn check(tier: Tier) -> i32 {
         shapes,
         shapes.iter().max().unwrap(),
         tier.pick("", ", plus n = 5 with the shapes 1,2,3"),
-        tier.pick("", "; thorough: each subset also in descending order and with every entry duplicated"),
+        tier.pick("; each subset also in descending and rotated order, with every entry duplicated, and with a non-existing id first", "; each subset also in descending and rotated order, in every order when it has <= 4 entries, with every entry duplicated, and with a non-existing id first"),
     );
     let mut cases = vec![];
     let mut metas = vec![];
@@ -636,11 +636,40 @@ pub fn check(tier: Tier) -> i32 {
                     let mut ghost = subset.clone();
                     ghost.push(ids as u32 + 3);
                     cases.push(Case { k, bodies: bodies.clone(), skip: ghost });
-                    if tier == Tier::Thorough && !subset.is_empty() {
+                    if !subset.is_empty() {
+                        // the caller's list is not sorted for them: descending, rotated, and (thorough) every
+                        // order of lists with <= 4 entries
                         if subset.len() > 1 {
                             let mut desc = subset.clone();
                             desc.reverse();
                             cases.push(Case { k, bodies: bodies.clone(), skip: desc });
+                        }
+                        if subset.len() > 2 {
+                            let mut rot = subset.clone();
+                            rot.rotate_left(1);
+                            cases.push(Case { k, bodies: bodies.clone(), skip: rot });
+                            if tier == Tier::Thorough && subset.len() <= 4 {
+                                let mut perm = subset.clone();
+                                // Heap's algorithm, all orders
+                                let n = perm.len();
+                                let mut c = vec![0usize; n];
+                                let mut i = 0;
+                                while i < n {
+                                    if c[i] < i {
+                                        if i % 2 == 0 {
+                                            perm.swap(0, i);
+                                        } else {
+                                            perm.swap(c[i], i);
+                                        }
+                                        cases.push(Case { k, bodies: bodies.clone(), skip: perm.clone() });
+                                        c[i] += 1;
+                                        i = 0;
+                                    } else {
+                                        c[i] = 0;
+                                        i += 1;
+                                    }
+                                }
+                            }
                         }
                         let mut dup = vec![];
                         for s in subset.iter() {
@@ -658,7 +687,7 @@ pub fn check(tier: Tier) -> i32 {
     }
     run.extra.insert(
         "bounds".into(),
-        serde_json::json!({"imports": [0, 1, 2], "max_local_functions": max_n, "extra_n_with_plain_shapes": if top_n > max_n { Some(top_n) } else { None }, "body_shapes": shapes, "skip_lists": "all subsets of ids 0..k+n, +non-existing id, thorough: +descending, +duplicated, +non-existing first"}),
+        serde_json::json!({"imports": [0, 1, 2], "max_local_functions": max_n, "extra_n_with_plain_shapes": if top_n > max_n { Some(top_n) } else { None }, "body_shapes": shapes, "skip_lists": "all subsets of ids 0..k+n, +non-existing id, +descending, +rotated, +duplicated, +non-existing first; thorough: +all orders of lists with <= 4 entries"}),
     );
     run.run_cases("skip lists", &cases, run_case);
     run.run_cases("func metadata", &metas, run_meta);
